@@ -30,11 +30,11 @@ def resultText (o : Outcome) (a : Args) : Option (List Char) :=
 /-- (ii) the result is the library result for the corresponding configuration, in every routing:
     input from `--filename` or stdin, output to stdout or `--output` (also when it names the input file) -/
 theorem result_is_library (a : Args) (w : World) (content out : List Char)
-    (hc : contentOf a w = some content) (hr : resultOf a w content = .ok out) :
+    (hc : contentOf a w = some content) (hcfg : configMissing a w = false) (hr : resultOf a w content = .ok out) :
     resultText (run a w) a = some out := by
   unfold run resultText
   rw [hc]
-  simp only [hr]
+  simp only [hcfg, Bool.false_eq_true, ite_false, hr]
   cases ho : a.output with
   | none => simp
   | some p => simp [writeFile]
@@ -47,10 +47,11 @@ theorem input_routing (a : Args) (w : World) (p : Path) (text : List Char) (hf :
 /-- when `--output` names the input file the input is read before it is overwritten -/
 theorem in_place (a : Args) (w : World) (p : Path) (content out : List Char)
     (hin : a.filename = some p) (hout : a.output = some p) (hf : w.files p = some content)
+    (hcfg : configMissing a w = false)
     (hr : resultOf a w content = .ok out) : (run a w).files p = some out ∧ (run a w).exit = 0 := by
   unfold run contentOf
   rw [hin]
-  simp only [hf, hr, hout]
+  simp only [hf, hcfg, Bool.false_eq_true, ite_false, hr, hout]
   simp [writeFile]
 
 /-- (iii) the target set is the config-file lines chained with the flag values -/
@@ -89,7 +90,19 @@ theorem environment_irrelevant (a : Args) (w : World) (t : Int × Nat) (now' : I
     run a w = run a { w with now := now', env := env' } := by
   have hc : configOf a w = configOf a { w with now := now', env := env' } := by
     simp [configOf, targetsOf, h]
-  simp [run, contentOf, resultOf, hc]
+  simp [run, contentOf, resultOf, configMissing, hc]
+
+/-- (vi) a file that cannot be opened - the input or the target config file - ends the run with status 101, nothing on
+    standard output and no file written (the output file is not even created) -/
+theorem missing_file_fails (a : Args) (w : World)
+    (h : contentOf a w = none ∨ configMissing a w = true) :
+    (run a w).exit = 101 ∧ (run a w).stdout = [] ∧ (run a w).files = w.files := by
+  unfold run
+  rcases h with h | h
+  · rw [h]; exact ⟨rfl, rfl, rfl⟩
+  · cases hc : contentOf a w with
+    | none => exact ⟨rfl, rfl, rfl⟩
+    | some content => simp [h]
 
 /-- `BufRead::lines` on a typical config file -/
 example : fileLines "feature1\nfeature2\r\n\nlast".toList = ["feature1".toList, "feature2".toList, [], "last".toList] := by
